@@ -627,6 +627,32 @@ theorem v2_write_compressed_paged_spec (P : Nat) (hP : 0 < P) (crc : Bytes → N
   rw [h2] at g1; cases g1
   exact ⟨pb', bytes, f, h1, h3, h4, g2, g4, g6⟩
 
+open Model.PageBuffer in
+/-- **`writeToVersion1` as it really runs — on the page buffer**, uncompressed and compressed.  Per message: offset, size
+and CRC placeholders, magic, attributes, timestamp, key, value, then size and CRC back-patched with `WriteAt` at
+`messageOffset+8` / `+12`.  With a codec the uncompressed set is first rendered into the SAME buffer, read back through
+`pages.scan(bufferOffset, Size())` into the compressor, the buffer truncated to `bufferOffset`, and one wrapper message
+written over it.  Whatever the page size and whatever the buffer held before: afterwards it holds the old content
+followed by a message set the independent decoder accepts — the messages themselves, or exactly one wrapper whose
+(compressed) value is the set of the messages with relative offsets 0..n-1. -/
+theorem v1_write_paged_spec (P : Nat) (hP : 0 < P) (c : Crcs) (h1 : ∀ b, c.ieee b < M32) (h2 : ∀ b, c.castagnoli b < M32)
+    (comp : Bytes → Bytes) (attrs now : Int) (recs : List PRec) (pb : PB) (hc : Contig P pb.pages) (hb0 : pb.base = 0)
+    (hw : (⟨0, 1, attrs, now, none, some (comp (writeV1 c.ieee (attrs - attrs % 8) now 0 recs))⟩ : Msg).WF)
+    (hwf : ∀ m ∈ msgsOfV1 attrs now 0 recs, m.WF) (hwf' : ∀ m ∈ msgsOfV1 (attrs - attrs % 8) now 0 recs, m.WF) :
+    (∃ bytes, flat (writeV1Paged P c.ieee attrs now 0 recs pb) = flat pb ++ bytes ∧
+      Contig P (writeV1Paged P c.ieee attrs now 0 recs pb).pages ∧
+      decodeSet c bytes = some ((msgsOfV1 attrs now 0 recs).map Entry.msg)) ∧
+    (∃ bytes, flat (writeV1PagedC P c.ieee comp attrs now recs pb) = flat pb ++ bytes ∧
+      Contig P (writeV1PagedC P c.ieee comp attrs now recs pb).pages ∧
+      decodeSet c bytes =
+        some [.msg ⟨0, 1, attrs, now, none, some (comp (writeV1 c.ieee (attrs - attrs % 8) now 0 recs))⟩] ∧
+      decodeSet c (writeV1 c.ieee (attrs - attrs % 8) now 0 recs) =
+        some ((msgsOfV1 (attrs - attrs % 8) now 0 recs).map Entry.msg)) := by
+  have a := writeV1Paged_spec P hP c.ieee attrs now recs 0 pb hc hb0
+  have b := writeV1PagedC_spec P hP c.ieee comp attrs now recs pb hc hb0
+  have sc := writeV1C_spec c h1 h2 comp attrs now recs hw hwf'
+  exact ⟨⟨_, a.1, a.2.1, writeV1_spec c h1 h2 attrs now recs hwf⟩, ⟨_, b.1, b.2.1, sc.1, sc.2⟩⟩
+
 /-! ### Timestamp type (attributes bit 3) -/
 
 /-- LogAppendTime: every record of the batch carries the batch's append time (`maxTimestamp`), whatever its delta -/
